@@ -126,6 +126,13 @@ def execute_flow(cfg, schedule=None, rng=None, max_yields=None, keep_dir=False, 
     sim = Sim(decider, clock, QUARA_DIR, max_yields=max_yields, line_files=LINE_FILE_SETS.get(line_set, ()), out_dir=out_dir,
               probes=stats_p, faults=stats_f, proc_seed=parent_seed + 17, pollution=pollution)
     test_setting = workload.build_test_setting(cfg)
+    if not is_ref and schedule.get("stale_dir"):
+        # fault kind stale_output_dir: the output directory still holds the files of an earlier run made with other seeds
+        stale_cfg = dict(cfg, seed_data=cfg["seed_data"] + 1, seed_qoperation=cfg["seed_qoperation"] + 1)
+        with _Patches(Sim(Decider(record={"proc": [], "threads": []}), SimClock(), QUARA_DIR, out_dir=out_dir), SimClock()):
+            qflow.execute_simulation_test_settings([workload.build_test_setting(stale_cfg)], out_dir, pdf_mode="none", exec_sim_check=copy.deepcopy(cfg.get("exec_sim_check")), parallel_mode=None,
+                                                   is_computation_time_required=cfg.get("is_computation_time_required", True))
+        stats_f["stale_output_dir"] = 1
     crash = None if is_ref else schedule.get("crash")
     disk = DiskSeam(out_dir, crash_at=(crash or {}).get("at_write"), torn=(crash or {}).get("torn"))
     saved = ProcGlobals.capture()
@@ -174,6 +181,8 @@ def _clean_schedule(rec):
     out = {"proc": [], "threads": [], "pollution": rec.get("pollution", []), "clock": rec.get("clock", [])}
     if rec.get("crash"):
         out["crash"] = rec["crash"]
+    if rec.get("stale_dir"):
+        out["stale_dir"] = True
     for e in rec.get("proc", []):
         out["proc"].append({k: v for k, v in e.items() if not k.startswith("_")})
     for e in rec.get("threads", []):
@@ -233,6 +242,8 @@ def run_record(record, want_record=True, gen=None):
         oracles.check_run_internal(cfg, ref, viol, stats, sig_base, which="reference")
         if not viol:
             oracles.reestimate_from_dir(cfg, ref, viol, stats, sig_base)
+        if not viol:
+            oracles.check_noise_models_multi(cfg, rng_for(record.get("seed", 0), "poolsim-multi"), viol, stats, sig_base)
     finally:
         shutil.rmtree(ref["out_dir"], ignore_errors=True)
     # ---- schedules
@@ -321,6 +332,8 @@ def gen_schedule_header(rng, cfg, fault_free, est, si):
     hdr = {"proc": [], "threads": [], "pollution": pollution, "clock": clock, "policy": policy, "line_set": line_set, "parent_seed": 2 + si}
     if rng.random() < 0.12:
         hdr["crash"] = "pending"  # the write index is drawn once the reference has told how many writes a run makes
+    elif rng.random() < 0.12 and not any(c["estimator"] == "lossmin" and c.get("loss") in ("se", "re") for c in cfg["cases"]):
+        hdr["stale_dir"] = True
     return hdr
 
 
